@@ -269,3 +269,74 @@ Definition eta_old (fd fb : nat) (a : etaArgs) : result etaOut :=
   | Err e => Err e
   | OK (d, c) => finish a d c
   end.
+
+(* ==================================================================================================
+   convert_to_arbitrary=True: make_extended_trapezoid.py:103-113 (points_to_waveform + make_arbitrary_grad),
+   then :132-140 (first/last from the corner amplitudes, slew / amplitude checks on the sampled form)
+   ================================================================================================== *)
+
+(* np.interp(x, xp, fp) for one x: end values outside [xp0, xpn], linear inside *)
+Fixpoint eta_interp (tt w : list Q) (x : Q) : Q :=
+  match tt, w with
+  | t0 :: ((t1 :: _) as tr), w0 :: ((w1 :: _) as wr) =>
+    if Qle_bool x t0 then w0
+    else if Qle_bool x t1 then (w1 - w0) / (t1 - t0) * (x - t0) + w0
+    else eta_interp tr wr x
+  | [_], [w0] => w0
+  | _, _ => 0
+  end.
+
+(* points_to_waveform.py:28-36: samples at the raster centres between round(min/R) and round(max/R).
+   On this path the times passed the strictly-ascending check (:88), so np.min / np.max are the first / last element. *)
+Definition eta_points_to_waveform (R : Q) (times amps : list Q) : list Q :=
+  let k0 := rnd_he (hd 0 times / R) in
+  let k1 := rnd_he (last times 0 / R) in
+  map (fun i => eta_interp times amps (inject_Z (k0 + Z.of_nat i) * R + R / 2))
+      (seq 0 (Z.to_nat (k1 - k0))).
+
+Fixpoint qsum (l : list Q) : Q := match l with [] => 0 | x :: r => x + qsum r end.
+
+Record etaArb := { a_wave : list Q; a_tt : list Q; a_first : Q; a_last : Q; a_area : Q; a_delay : Q;
+                   a_shape_dur : Q }.
+
+Definition make_ext_trap_arb (s : etaSys) (times amps : list Q) : result etaArb :=
+  let R := s_raster s in
+  if forallb (fun t => Qeq_bool t 0) times then Err ETimesZero                      (* :85 *)
+  else if existsb (fun dt => Qleb dt 0) (diffs times) then Err ETimesOrder            (* :88 *)
+  else if negb (on_raster R (last times 0)) then Err ERaster                          (* :91 *)
+  else if Qltb 0 (hd 0 times) && negb (Qeq_bool (hd 0 amps) 0) then Err EFirst        (* :94 *)
+  else
+    let wf := eta_points_to_waveform R times amps in                                  (* :105 *)
+    (* make_arbitrary_grad.py:79-83 *)
+    if existsb (fun dw => Qltb (s_max_slew s * (1 + eta_eps)) (Qabs (dw / R))) (diffs wf) then Err ESlew
+    else if existsb (fun w => Qltb (s_max_grad s + eta_eps) (Qabs w)) wf then Err EAmp
+    else
+      let n := length wf in
+      let tt := map (fun i => (inject_Z (Z.of_nat i) + (1 # 2)) * R) (seq 0 n) in     (* make_arbitrary_grad.py:96 *)
+      let area := qsum (map (fun w => w * R) wf) in                                    (* :100 *)
+      (* make_extended_trapezoid.py:132-133 overwrite the extrapolated first / last *)
+      let first := hd 0 amps in
+      let lst := last amps 0 in
+      (* :135-140 *)
+      if existsb (fun sl => Qltb (s_max_slew s * (1 + eta_eps)) (Qabs sl)) (slews tt wf) then Err ESlew
+      else if existsb (fun w => Qltb (s_max_grad s + eta_eps) (Qabs w)) wf then Err EAmp
+      else OK {| a_wave := wf; a_tt := tt; a_first := first; a_last := lst; a_area := Qred area;
+                 a_delay := hd 0 times; a_shape_dur := inject_Z (Z.of_nat n) * R |}.
+
+Record etaArbOut := { oa_grad : etaArb; oa_dur : Z; oa_cand : cand }.
+
+Definition finish_arb (a : etaArgs) (d : Z) (c : cand) : result etaArbOut :=
+  match make_ext_trap_arb (e_sys a) (build_times a c) (build_amps a c) with
+  | Err e => Err e
+  | OK g =>
+    if Qltb (Qabs (a_area g - e_area a)) eta_area_tol                                  (* :241 *)
+    then OK {| oa_grad := g; oa_dur := d; oa_cand := c |}
+    else Err EArea
+  end.
+
+(* make_extended_trapezoid_area(..., convert_to_arbitrary=True) *)
+Definition eta_arb (fd fb : nat) (a : etaArgs) : result etaArbOut :=
+  match search fd fb a with
+  | Err e => Err e
+  | OK (d, c) => finish_arb a d c
+  end.
